@@ -37,6 +37,9 @@ type Coll struct {
 	Name  string   `json:"name"`
 	Slash bool     `json:"slash,omitempty"` // the backend spells the path with a trailing slash
 	Objs  []string `json:"objs,omitempty"`
+	// Under: the two segments above the collection when it does not live textually below the home set (the servers
+	// classify by depth only, so a backend may keep a shared or archived collection elsewhere); discovery only
+	Under []string `json:"under,omitempty"`
 }
 
 type Layout struct {
@@ -87,11 +90,15 @@ func (l Layout) principal() string { return join(append(append([]string{}, l.Pre
 func (l Layout) home() string {
 	return join(append(append([]string{}, l.Prefix...), l.User, l.Home), l.HomeSlash)
 }
-func (l Layout) coll(c Coll) string {
-	return join(append(append([]string{}, l.Prefix...), l.User, l.Home, c.Name), c.Slash)
+func (l Layout) above(c Coll) []string {
+	if len(c.Under) == 2 {
+		return append(append([]string{}, l.Prefix...), c.Under...)
+	}
+	return append(append([]string{}, l.Prefix...), l.User, l.Home)
 }
+func (l Layout) coll(c Coll) string { return join(append(l.above(c), c.Name), c.Slash) }
 func (l Layout) obj(c Coll, o string) string {
-	return join(append(append([]string{}, l.Prefix...), l.User, l.Home, c.Name, o), false)
+	return join(append(l.above(c), c.Name, o), false)
 }
 
 func event(uid string) *ical.Calendar {
@@ -636,6 +643,11 @@ func TestDiscovery(t *testing.T) {
 	}
 	vev.Rapid(t, rec, 1, vev.N(1500, 80000), func(rt *rapid.T) {
 		l := genLayout(rt)
+		for i := range l.Colls {
+			if rapid.IntRange(0, 3).Draw(rt, "elsewhere?") == 0 {
+				l.Colls[i].Under = rapid.SampledFrom([][]string{{l.User, l.Home + "-archive"}, {"shared", "team"}, {l.User + "x", l.Home}, {l.User, "inbox"}}).Draw(rt, "under")
+			}
+		}
 		run(t, rt, Case{Layout: l, Kind: "discovery"}, "discovery/"+l.Server)
 	})
 }
